@@ -26,9 +26,17 @@ def plan(tier, ctx):
     quick = tier == "quick"
     qs = []
     # (b) run-length coding of code lengths
-    for nc in (list(range(1, 13)) if quick else list(range(1, 25))):
-        core = nc == 8
-        qs.append(q("rl_encode/nc%d" % nc, ["H_RL", "NC=%d" % nc], unwind=max(nc + 2, 22), core=core, witness=core, weight=nc))
+    # arbitrary sequences (cost grows ~2.5x per entry: 2^(nc-1) run patterns)
+    for nc in (list(range(1, 8)) if quick else list(range(1, 11))):
+        core = nc == 6
+        qs.append(q("rl_encode/nc%d" % nc, ["H_RL", "NC=%d" % nc], unwind=max(nc + 2, 22),
+                    unwindset=["write_rl.0:1", "write_rl.1:%d" % (nc // 6 + 2)], core=core, witness=core, weight=2 ** nc / 8.0,
+                    timeout=(None if quick else 2400)))
+    # sequences made of at most 3 runs with arbitrary boundaries/values, long totals
+    for nc in ([12, 24] if quick else [12, 24, 40, 150]):
+        qs.append(q("rl_runs3/nc%d" % nc, ["H_RL", "NC=%d" % nc, "RUNS=3"], unwind=max(nc + 2, 22),
+                    unwindset=["write_rl.0:2", "write_rl.1:%d" % (nc // 6 + 2)], core=(nc == 12), witness=(nc == 12),
+                    weight=nc))
     qs.append(q("write_rl/run300", ["H_WRL", "RUNMAX=300"], unwind=300 // 6 + 6, core=True, witness=True, weight=10))
     # (c) packed tables and symbol conversions
     qs.append(q("len_table/default", ["H_LEN"], unwind=40, core=True, witness=True, weight=5))
